@@ -1,4 +1,4 @@
-(* C20 -- defaults.reset(), on the whole generated settings schema *)
+(* C20 -- defaults.reset(): on the whole generated settings schema, and after ARBITRARY histories *)
 From Coq Require Import ZArith List Bool String Ascii.
 From MV Require Import Lib.STree Model.StyleModel Gen.GenStyle Model.StyleExec Model.StyleSpec.
 Import ListNotations.
@@ -11,24 +11,161 @@ Proof. vm_compute. reflexivity. Qed.
 Lemma reset_all_ok : reset_all = true.
 Proof. vm_cast_no_check (eq_refl true). Qed.
 
-Lemma reset_none_outside_ok : reset_none_outside = true.
-Proof. vm_cast_no_check (eq_refl true). Qed.
+(* ---------------------------------------------------------------- reset does not look at the current settings *)
+(* whatever the `display` object currently is (t0 is a variable), reset() yields the pristine settings *)
+Lemma reset_any_state : forall t0 : tree,
+  reset colors reset_mode defaults_schema (Node [("display", t0)]) DEFAULTS = (pristine, None).
+Proof. intro t0. vm_compute. reflexivity. Qed.
 
-Definition p_label : path := ["display"; "style"; "base"; "label"].
-Definition p_msize : path := ["display"; "style"; "magnet"; "magnetization"; "arrow"; "size"].
+(* ---------------------------------------------------------------- every operation keeps the settings of that form *)
+Definition shape_d (sd : dict) : bool :=
+  match sd with [(k, _)] => String.eqb k "display" | _ => false end.
+Definition def_shape (d : tree) : bool := match d with Node sd => shape_d sd | Leaf _ => false end.
 
-Lemma reset_outside_witness :
-  In (p_label, KToStr, false) (sleaves defaults_schema) /\ in_literal p_label = false /\
-  reset_holds p_label (VStr "lbl") NAttr = false.
+Lemma def_shape_inv d : def_shape d = true -> exists t0, d = Node [("display", t0)].
 Proof.
-  split; [|split; vm_compute; reflexivity].
-  apply (nth_error_In _ (leaf_index defaults_schema p_label)). vm_compute. reflexivity.
+  destruct d as [o|[|[k t] [|x r]]]; simpl; try discriminate.
+  intros H. apply String.eqb_eq in H. subst. eauto.
 Qed.
 
-Lemma reset_alias_witness :
-  In (p_msize, KNumGe0, false) (sleaves defaults_schema) /\ in_literal p_msize = true /\
-  In (VInt 2) (two KNumGe0) /\ reset_holds p_msize (VInt 2) NAttr = false.
+Lemma dset_shape sd t : shape_d sd = true -> shape_d (dset "display" t sd) = true.
 Proof.
-  split; [|split; [vm_compute; reflexivity|split; [left; reflexivity|vm_compute; reflexivity]]].
-  apply (nth_error_In _ (leaf_index defaults_schema p_msize)). vm_compute. reflexivity.
+  destruct sd as [|[k0 t0] [|x r]]; simpl; try discriminate.
+  intros H. apply String.eqb_eq in H. subst k0. reflexivity.
+Qed.
+
+Section Shape.
+Variable sp : schema.
+Hypothesis Hna : (match sp with SAlias _ _ _ => false | _ => true end) = true.
+Let props : list (string * schema) := [("display", sp)].
+
+Lemma slookup_top k s0 : slookup k props = Some s0 -> k = "display".
+Proof.
+  unfold props. simpl. destruct (String.eqb k "display") eqn:E; [|discriminate].
+  intros _. apply String.eqb_eq. exact E.
+Qed.
+
+Lemma setattr_shape sd k v sd' :
+  shape_d sd = true -> setattr colors props sd k v = inl sd' -> shape_d sd' = true.
+Proof.
+  intros Hs H. unfold setattr in H.
+  destruct (slookup k props) as [s0|] eqn:E; [|discriminate H].
+  pose proof (slookup_top k s0 E) as Hk. subst k.
+  unfold props in E. simpl in E. inversion E; subst s0. clear E.
+  destruct sp as [kd|tg kd vis|cn a b ct ps]; [|discriminate Hna|].
+  - destruct (set_into colors (SLeaf kd) v) as [t|e]; [|discriminate H].
+    inversion H; subst. apply dset_shape. exact Hs.
+  - destruct (set_into colors (SObj cn a b ct ps) v) as [t|e]; [|discriminate H].
+    inversion H; subst. apply dset_shape. exact Hs.
+Qed.
+
+Lemma apply_items_shape items : forall sd,
+  shape_d sd = true -> shape_d (fst (apply_items colors props items sd)) = true.
+Proof.
+  induction items as [|[k v] r IH]; intros sd Hs; simpl; [exact Hs|].
+  destruct (setattr colors props sd k v) as [sd'|e] eqn:E.
+  - apply IH. exact (setattr_shape sd k v sd' Hs E).
+  - simpl. exact Hs.
+Qed.
+
+Variables (cn : string) (a b : bool) (ct : list (string * option val)).
+Let S0 : schema := SObj cn a b ct props.
+
+Lemma update_shape st arg m r :
+  def_shape st = true -> def_shape (fst (update colors S0 st arg m r)) = true.
+Proof.
+  intros Hs. destruct st as [o|sd]; [discriminate Hs|]. unfold update, S0.
+  match goal with |- context [und ?x1 ?x2 ?x3 ?x4] => destruct (und x1 x2 x3 x4) as [o|new] end.
+  - simpl. exact Hs.
+  - pose proof (apply_items_shape new sd Hs) as H.
+    destruct (apply_items colors props new sd) as [sd' e]. simpl in *. exact H.
+Qed.
+
+Lemma update_at_shape sub st arg :
+  def_shape st = true -> def_shape (fst (update_at S0 st sub arg)) = true.
+Proof.
+  intros Hs. destruct sub as [|k r].
+  - cbn [update_at]. apply update_shape. exact Hs.
+  - destruct st as [o|sd]; [discriminate Hs|]. unfold S0. cbn [update_at].
+    destruct (slookup k props) as [s1|] eqn:E1; [|exact Hs].
+    destruct (dget k sd) as [t|] eqn:E2; [|exact Hs].
+    pose proof (slookup_top k s1 E1) as Hk. subst k.
+    destruct (update_at s1 t r arg) as [t' e]. simpl. apply dset_shape. exact Hs.
+Qed.
+
+Lemma assign_shape p st v t' :
+  def_shape st = true -> assign colors S0 st p v = inl t' -> def_shape t' = true.
+Proof.
+  intros Hs H. destruct st as [o|sd]; [discriminate Hs|]. unfold S0 in H.
+  destruct p as [|k [|k' p']]; cbn [assign] in H.
+  - discriminate H.
+  - destruct (setattr colors props sd k v) as [sd'|e] eqn:E; [|discriminate H].
+    inversion H; subst. simpl. exact (setattr_shape sd k v sd' Hs E).
+  - destruct (slookup k props) as [s1|] eqn:E1; [|discriminate H].
+    destruct (dget k sd) as [t|] eqn:E2; [|discriminate H].
+    pose proof (slookup_top k s1 E1) as Hk. subst k.
+    match type of H with
+    | (match ?X with inl _ => _ | inr _ => _ end) = _ => destruct X as [t1|e]; [|discriminate H]
+    end.
+    inversion H; subst. simpl. apply dset_shape. exact Hs.
+Qed.
+End Shape.
+
+(* the generated settings schema has exactly one top-level property, `display`, a sub-object *)
+Lemma dschema_form :
+  exists cn a b ct sp, defaults_schema = SObj cn a b ct [("display", sp)] /\
+                       (match sp with SAlias _ _ _ => false | _ => true end) = true.
+Proof. unfold defaults_schema. do 5 eexists. split; reflexivity. Qed.
+
+Lemma pristine_shape : def_shape pristine = true.
+Proof. vm_compute. reflexivity. Qed.
+
+Lemma step_keeps_shape cls w o :
+  def_shape (w_def w) = true -> def_shape (w_def (fst (step cls w o))) = true.
+Proof.
+  intros Hs. destruct dschema_form as [cn [a [b [ct [sp [Hd Hna]]]]]].
+  destruct o as [[|] sub arg|[|] p v|arg|kw|]; unfold step.
+  - pose proof (update_at_shape sp Hna cn a b ct sub (w_def w) arg Hs) as H. rewrite <- Hd in H.
+    destruct (update_at defaults_schema (w_def w) sub arg) as [t e]. simpl in *. exact H.
+  - destruct (update_at (class_schema cls) (w_obj w) sub arg) as [t e]. simpl. exact Hs.
+  - destruct (assign colors defaults_schema (w_def w) p v) as [t|e] eqn:E; simpl.
+    + rewrite Hd in E. exact (assign_shape sp Hna cn a b ct p (w_def w) v t Hs E).
+    + exact Hs.
+  - destruct (lift_res (w_obj w) (assign colors (class_schema cls) (w_obj w) p v)) as [t e]. simpl. exact Hs.
+  - destruct (update colors (class_schema cls) (w_obj w) arg true false) as [t e]. simpl. exact Hs.
+  - destruct (def_shape_inv _ Hs) as [t0 Ht]. rewrite Ht. rewrite reset_any_state. simpl. exact pristine_shape.
+  - destruct (get_style colors (class_schema cls) (class_families cls) dstyle_schema
+                        (def_style_state (w_def w)) valid_keys (w_obj w) (show_style_kwargs kw)) as [t e].
+    simpl. exact Hs.
+Qed.
+
+Lemma run_keeps_shape cls ops : forall w,
+  def_shape (w_def w) = true -> def_shape (w_def (run_world cls w ops)) = true.
+Proof.
+  induction ops as [|o r IH]; intros w Hs; simpl; [exact Hs|].
+  apply IH. apply step_keeps_shape. exact Hs.
+Qed.
+
+(* after ANY history of operations (on the object, on the settings, resets, resolutions) starting from the
+   import-time settings, reset() gives exactly the import-time settings, without error *)
+Lemma reset_after_any_history cls ops w_obj0 :
+  let w := run_world cls (mkW pristine w_obj0) ops in
+  w_def (fst (step cls w OReset)) = pristine /\ o_err (snd (step cls w OReset)) = None.
+Proof.
+  intros w.
+  assert (Hs : def_shape (w_def w) = true) by (apply run_keeps_shape; exact pristine_shape).
+  destruct (def_shape_inv _ Hs) as [t0 Ht].
+  unfold step. rewrite Ht. rewrite reset_any_state. simpl. split; reflexivity.
+Qed.
+
+(* ---------------------------------------------------------------- record: the variant before f095e9f (merge) *)
+Definition p_label : path := ["display"; "style"; "base"; "label"].
+
+Lemma reset_merge_variant_witness :
+  In (p_label, KToStr, false) (sleaves defaults_schema) /\ in_literal p_label = false /\
+  reset_holds_m RMerge p_label (VStr "lbl") NAttr = false /\
+  reset_holds_m RRebuild p_label (VStr "lbl") NAttr = true.
+Proof.
+  split; [|split; [|split]]; try (vm_compute; reflexivity).
+  apply (nth_error_In _ (leaf_index defaults_schema p_label)). vm_compute. reflexivity.
 Qed.
